@@ -358,6 +358,8 @@ def run(ctx: Ctx):
     _both_parameterisations_normalised(ctx)
     _either_representation_alias_is_metadata_only(ctx)
     _categorical_tlog_prob_table(ctx)
+    _expand_copies_each_parameter_from_itself(ctx)
+    _chain_carry_over_uses_the_per_chain_decision(ctx)
     _callback_results_not_mutated(ctx)
     _unbiased_defaults_and_exact_tables(ctx)
     plumbing(ctx, "S6")
@@ -681,6 +683,85 @@ def _both_parameterisations_normalised(ctx: Ctx):
                f"a normalised parameter, so with un-normalised {tg[0].attr} the probabilities over the one-hot support do not sum "
                f"to one and log P(z) != log P(H(z)) + log P(z | H(z))", rel, st.lineno)
     col.floor("gumbel_parameter_stores", n_, 2)
+
+
+def _expand_copies_each_parameter_from_itself(ctx: Ctx):
+    """S16: `expand` of the relaxed distributions builds the new instance parameter by parameter: under `'<p>' in self.__dict__` the new
+    instance's `<p>` is the expansion of `self.<p>`. Filled from the other parametrisation (probabilities stored as logits) the expanded
+    distribution is a different one - its threshold probability is sigmoid(p) - and `probs` and `logits` of one object disagree, so the
+    conditional and the relaxed sampler no longer belong to one joint."""
+    col, pkg = ctx.col, ctx.pkg
+    n_sites = 0
+    for f in pkg.all_functions():
+        if f.name != "expand" or f.cls is None or f.module.name.split(".")[-1] != "_straight_through":
+            continue
+        rel = f.module.relname
+        for n in own_nodes(f.node):
+            if not (isinstance(n, ast.If) and isinstance(n.test, ast.Compare) and len(n.test.ops) == 1 and isinstance(n.test.ops[0], ast.In)
+                    and isinstance(n.test.left, ast.Constant) and isinstance(n.test.left.value, str) and u(n.test.comparators[0]) == "self.__dict__"):
+                continue
+            pname = n.test.left.value
+            for st in n.body:
+                if not isinstance(st, ast.Assign):
+                    continue
+                tg = [t_ for t_ in st.targets if isinstance(t_, ast.Attribute) and isinstance(t_.value, ast.Name) and t_.value.id != "self"
+                      and t_.attr in ("probs", "logits")]
+                if not tg:
+                    continue
+                n_sites += 1
+                reads = {x.attr for x in ast.walk(st.value) if isinstance(x, ast.Attribute) and isinstance(x.value, ast.Name) and x.value.id == "self"
+                         and x.attr in ("probs", "logits")}
+                ok = all(t_.attr == pname for t_ in tg) and reads == {pname}
+                col.ob("G5", "S16", f"{rel}::{f.qualname}::expanded[{pname}]<-self.{pname}", ok,
+                       f"under `'{pname}' in self.__dict__` the new instance's {[t_.attr for t_ in tg]} is filled from self.{sorted(reads)}: the expanded "
+                       f"distribution stores one parametrisation under the other's name", rel, st.lineno, sample=u(st)[:100])
+    col.floor("expand_parameter_copies", n_sites, 4)
+
+
+def _chain_carry_over_uses_the_per_chain_decision(ctx: Ctx):
+    """S17: in the Metropolis-Hastings chain the accept decision has one entry per chain element; it gains trailing singleton axes (a loop of
+    unsqueeze) only to select whole SAMPLES with event dimensions. The importance ratio has no event dimensions: the statement that carries
+    it over (reads the decision and the previous ratio) must read the decision as computed, not the version widened for the samples -
+    otherwise the ratio grows an axis per step for categorical proposals (shape error, or element-wise acceptance when batch size and
+    class count coincide). Decided by def-use versions: no definition of the decision that reaches the ratio's carry-over lies inside a
+    loop."""
+    from sa.defuse import ReachingDefs
+    col, pkg = ctx.col, ctx.pkg
+    f = pkg.func("_mc::IndependentMetropolisHastingsEstimator.__call__")
+    rel = f.module.relname
+    rd = ReachingDefs(f.node)
+    pm = parent_map(f.node)
+    # the decision: a name defined by a comparison with the uniform draws and later widened inside a while loop
+    widened = {}
+    for n in own_nodes(f.node):
+        if isinstance(n, ast.While):
+            for st in ast.walk(n):
+                if isinstance(st, ast.Assign) and len(st.targets) == 1 and isinstance(st.targets[0], ast.Name) and isinstance(st.value, ast.Call) \
+                        and isinstance(st.value.func, ast.Attribute) and st.value.func.attr == "unsqueeze" and u(st.value.func.value) == st.targets[0].id:
+                    widened[st.targets[0].id] = n
+    # the ratio: what the decision compares (`accept = (cur - last) > draw`)
+    ratio_names = set()
+    for n in own_nodes(f.node):
+        if isinstance(n, ast.Assign) and len(n.targets) == 1 and isinstance(n.targets[0], ast.Name) and n.targets[0].id in widened \
+                and any(isinstance(x, ast.Compare) for x in ast.walk(n.value)):
+            ratio_names |= {x.id for x in ast.walk(n.value) if isinstance(x, ast.Name)} - set(widened)
+    n_sites, bad = 0, None
+    for n in own_nodes(f.node):
+        if not isinstance(n, ast.Assign) or len(n.targets) != 1 or not isinstance(n.targets[0], ast.Name):
+            continue
+        reads = [x for x in ast.walk(n.value) if isinstance(x, ast.Name) and x.id in widened]
+        if not reads or n.targets[0].id not in ratio_names:
+            continue
+        n_sites += 1
+        for x in reads:
+            inside = {id(y) for y in ast.walk(widened[x.id])}
+            if any(d.stmt is not None and id(d.stmt) in inside for d in rd.defs_of(x)) and bad is None:
+                bad = (n, x)
+    col.floor("ratio_carry_over_sites", n_sites, 1)
+    col.ob("G16", "S17", f"{rel}::{f.qualname}::ratio-carried-over-by-the-per-chain-decision", bad is None,
+           (f"`{u(bad[0])[:90]}` reads `{bad[1].id}` after it was widened by trailing axes for the samples' event dimensions: the carried ratio gains "
+            f"those axes, and from the next step on the decision has the wrong shape (categorical proposals: shape error, or element-wise "
+            f"acceptance)") if bad else "", rel, bad[0].lineno if bad else f.line)
 
 
 def _categorical_tlog_prob_table(ctx: Ctx):
